@@ -73,6 +73,35 @@ def _work_decl(origin):
     return _cases_from_text(cid, origin, text, text_b)
 
 
+def _work_clash(origin):
+    from pv import sem
+    cid = f"modclash{origin['index']}"
+    sink = io.StringIO()
+    with contextlib.redirect_stdout(sink), contextlib.redirect_stderr(sink):
+        try:
+            psy = sem.parse(origin["source"])
+            if origin["api_step"] and not c04_gen.sibling_symbols(psy):
+                raise core.MachineryError("API step added no symbol to " + cid)
+            text = _write(psy)
+        except core.MachineryError:
+            raise
+        except Exception as err:   # noqa
+            return [{"id": cid, "status": "rejected", "origin": origin,
+                     "why": f"{type(err).__name__}: {err}"[:200]}]
+        try:
+            c04_gen.tag_symbols(psy)
+            text_b = _write(psy)
+        except Exception:   # noqa
+            text_b = None
+    res = _cases_from_text(cid, origin, text, text_b)
+    for r in res:
+        if r["status"] == "ok" and not r["aligned"]:
+            # this family exists for NoCapture: without identities it says nothing
+            r["status"] = "unsupported"
+            r["why"] = "texts do not align for identity pairs"
+    return res
+
+
 def _work_c03(job):
     from pv import c03_gen
     idx, seed, nested = job
@@ -247,6 +276,9 @@ def run(tier, only=None):
         jobs = [(i, seed, 0) for i in range(nc03)] + \
                [(i, seed, 1 + (i % 2)) for i in range(nc03)]
         results += [r for part in core.pool_map(_work_c03, jobs) for r in part]
+        results += [r for part in core.pool_map(
+            _work_clash, list(c04_gen.clash_programs(60 if tier == "quick" else 600, seed)))
+            for r in part]
     if only in (None, "history"):
         results += [r for part in core.pool_map(
             _work_history, c04_gen.history_jobs(tier, seed)) for r in part]
@@ -268,7 +300,7 @@ def run(tier, only=None):
             raise core.MachineryError("duplicate case id " + r["id"])
         by_id[r["id"]] = r
     if only is None:
-        for fam in ("decls", "c03prog", "c03nested", "history", "psy"):
+        for fam in ("decls", "c03prog", "c03nested", "modclash", "history", "psy"):
             if not stat.get(fam + ":ok"):
                 raise core.MachineryError(f"family {fam} produced no unit: {stat}")
     if os.environ.get("PV_C04_CORRUPT"):
